@@ -26,6 +26,14 @@ looks at.  The specification decides from them whether the two facet normals are
 broken coordinates, triangles immersed in R^3), checks that the environments generated here grant
 exactly that (ASSUME Admissible, ASSUME Discriminating) and predicts the propagated form; vectors have
 GDim components.
+
+Measures (MEASURES): besides dS over one mesh the model has integrals over two meshes A and B (Measure(..., A,
+intersect_measures=(Measure(..., B),)): ds/\\dS, dx/\\dS (A a mesh of intervals), dS/\\ds, dS/\\dS, and dS over A with
+B only in the integrand).  The specification derives from the integral types which domain is two-sided (DefRestr:
+FormData's map of default restrictions, PropagatesOn: its guard; ASSUME GuardCovers), gives the terminals of a
+one-sided domain one value and no meaning below a restriction, and transcribes the domain-dependent branches of
+_require_restriction / _default_restricted / _opposite.  The real Measure is built from the same records; the
+terminals the judgement treats as one-sided are those the specification dumps.
 """
 
 from __future__ import annotations
@@ -172,6 +180,8 @@ class Run:
         if any(sl.doms != self.doms for sl in self.slices):
             raise MachineryError(f"run {name}: slices over different measures")
         self.text = doms_text(self.doms)
+        # structural class of the measure in the fingerprints of a multi-domain world: e.g. "ds/dS", "dS/+" (+: only in the integrand)
+        self.tag = "/".join(MEASURE[d["it"]] if d["inm"] else "+" for d in self.doms) if len(self.doms) > 1 else ""
         self.simulate = simulate
         self.depth = depth
         self.nenv = nenv
@@ -849,6 +859,8 @@ def judge(w, envs, rec, stats, form_every=0):
         _bump(stats, "form_eligible")
         if stats["form_eligible"] % form_every == 0:
             F += _judge_form(w, envs, rec, expr, text, stats)
+    if sl.tag:
+        F = [(f"{fp}:{sl.tag}", what) for fp, what in F]
     return F
 
 
